@@ -22,6 +22,13 @@ def run(tier, seed, res, lean, opts=None, pid='C02'):
         ext = pmap(suite_external.run_shard, [(seed * 61 + i + 1, 4 if tier == 'quick' else 30) for i in range(16)])
         for p in [p for o in ext for p in o[1] if p.get('kind') != 'collision'][:3]:
             res.violations.append(Violation('c02-external', p['msg'][:400], {'suite': 'S-EXTERNAL', **p}))
+        # Mixins that carry the inheritance policy / parameters / fields of the Transforms using them
+        import warnings
+        from .. import suite_outann
+        with warnings.catch_warnings():
+            warnings.simplefilter('ignore')
+            for p in [p for i in range(10 if tier == 'quick' else 60) for p in suite_outann.run_mixin_policy(seed * 97 + i)][:3]:
+                res.violations.append(Violation('c02-mixin-policy', p['msg'][:400], {'suite': 'S-OUTANN/mixin', **p}))
     stats = merge_stats([o[0] for o in outs])
     oracle_bad = [b for o in outs for b in o[1]]
     model_bad = [b for o in outs for b in o[2]]
